@@ -58,7 +58,9 @@ func vworkload(db *DB, mo *vmodel, keys []string, tag string, n int, drain bool)
 		if drain {
 			vDrain(db)
 		}
-		mo.check(db, fmt.Sprintf("%s.after%d", tag, i), keys)
+		if vf.Param("STALL", 0) == 0 { // (a stalled flusher holds the level manager: no reads meanwhile)
+			mo.check(db, fmt.Sprintf("%s.after%d", tag, i), keys)
+		}
 	}
 }
 
